@@ -58,14 +58,16 @@ Definition callee_init (fn : func) (vals : list val) (cells : list (option strin
   let frame := combine (fparams fn) vals ++ map (fun x => (x, VUndef)) (flocals fn)
                ++ match lookup budget_var (vars s) with Some b => [(budget_var, b)] | None => [] end
                ++ match lookup fail_var (vars s) with Some b => [(fail_var, b)] | None => [] end
-               ++ match lookup strm_var (vars s) with Some b => [(strm_var, b)] | None => [] end in
+               ++ match lookup strm_var (vars s) with Some b => [(strm_var, b)] | None => [] end
+               ++ match lookup cells_var (vars s) with Some b => [(cells_var, b)] | None => [] end in
   {| vars := copy_in (fparams fn) cells (vars s) frame; inb := inb s; outb := outb s |}.
 
 Definition finish_call (ret : option string) (fn : func) (cells : list (option string)) (s st' : state) (v : val) : option state :=
   let vs1 := copy_out (fparams fn) cells (vars st') (vars s) in
   let vs2a := match lookup budget_var (vars st') with Some b => try_update budget_var b vs1 | None => vs1 end in
   let vs2b := match lookup fail_var (vars st') with Some b => try_update fail_var b vs2a | None => vs2a end in
-  let vs2 := match lookup strm_var (vars st') with Some b => try_update strm_var b vs2b | None => vs2b end in
+  let vs2c := match lookup strm_var (vars st') with Some b => try_update strm_var b vs2b | None => vs2b end in
+  let vs2 := match lookup cells_var (vars st') with Some b => try_update cells_var b vs2c | None => vs2c end in
   match ret with
   | Some x => match update x v vs2 with Some vs3 => Some {| vars := vs3; inb := inb st'; outb := outb st' |} | None => None end
   | None => Some {| vars := vs2; inb := inb st'; outb := outb st' |}
@@ -125,6 +127,11 @@ Fixpoint execE (env : fenv) (fuel : nat) (st : stmt) (s : state) : outcome :=
    of the input stream (separate from the memory) *)
 Definition callH (env : fenv) (fuel : nat) (f : func) (args : list val) (memory : list Z) (fail : Z) (strm : list Z) : outcome :=
   execE env fuel (fbody f) {| vars := combine (fparams f) args ++ map (fun x => (x, VUndef)) (flocals f) ++ [(budget_var, VInt 0); (fail_var, VInt fail); (strm_var, VBytes strm)];
+                              inb := memory; outb := [] |}.
+
+(* a top-level call of a function that works on structs: cells = the cell heap *)
+Definition callC (env : fenv) (fuel : nat) (f : func) (args : list val) (memory : list Z) (fail : Z) (strm : list Z) (cells : list (option (list val))) : outcome :=
+  execE env fuel (fbody f) {| vars := combine (fparams f) args ++ map (fun x => (x, VUndef)) (flocals f) ++ [(budget_var, VInt 0); (fail_var, VInt fail); (strm_var, VBytes strm); (cells_var, VHeap cells)];
                               inb := memory; outb := [] |}.
 
 (* a top-level call of a function that works on streams *)
